@@ -26,6 +26,9 @@ class W(def wi: Int, def ws: Str, def wf: Float, def wa: A, def wio: Int?, def w
     def seto_s(self, k: Str?) => self.wso := k
     def seto_f(self, k: Float?) => self.wfo := k
     def seto_a(self, k: A?) => self.wao := k
+class B(bx: Int): A(bx)
+def nb: B? := None
+def gn_b() -> B? => nb
 def vw: W := W(1, "w", 0.5, va, ni, ns, nf, na)
 def f_i(p: Int) -> Int => 1
 def f_s(p: Str) -> Int => 1
@@ -43,7 +46,10 @@ def gn_a() -> A? => na
 
 T = {"i": "Int", "s": "Str", "f": "Float", "a": "A"}
 TVAL = {"i": ["4", "vi"], "s": ['"t"', "vs"], "f": ["0.25", "vf"], "a": ["A(2)", "va"]}
-NVAR = {"i": "ni", "s": "ns", "f": "nf", "a": "na"}
+NVAR = {"i": "ni", "s": "ns", "f": "nf", "a": "na", "b": "nb"}
+# a nullable value of a proper subtype flowing into a position of the supertype: Int? into Float, B? into A (B: A)
+WIDEN = {"f": "i", "a": "b"}
+SUBVAL = {"i": ["4", "vi"], "b": ["B(2)"]}
 VAR = {"i": "vi", "s": "vs", "f": "vf", "a": "va"}
 SWITCHES = set()
 EXCLUDED = {}
@@ -59,7 +65,7 @@ def null_source(draw, t, kind):
         return NVAR[t]
     if kind == "call":
         return "gn_%s()" % t
-    v = draw(st.sampled_from(TVAL[t]))
+    v = draw(st.sampled_from(TVAL[t] if t in TVAL else SUBVAL[t]))
     if kind == "ifexpr_then":
         return "(if vb then None else %s)" % v
     return "(if vb then %s else None)" % v
@@ -102,11 +108,16 @@ def _case(draw):
     if direction == "reject":
         c = draw(st.sampled_from(CONSUMERS))
         src_kind = draw(st.sampled_from(NULL_SOURCES))
-        if "no_ifexpr_into_assign" in SWITCHES and src_kind.startswith("ifexpr") and c in ("assign", "field_assign", "method_arg"):
+        if False and "no_ifexpr_into_assign" in SWITCHES and src_kind.startswith("ifexpr") and c in ("assign", "field_assign", "method_arg"):
             # open finding F44: redirected to a variable source, counted
             EXCLUDED["no_ifexpr_into_assign"] = EXCLUDED.get("no_ifexpr_into_assign", 0) + 1
             src_kind = "var"
-        s = null_source(draw, t, src_kind)
+        widen = t in WIDEN and draw(st.integers(0, 2)) == 0
+        if widen and src_kind == "none":
+            src_kind = "var"
+        s = null_source(draw, WIDEN[t] if widen else t, src_kind)
+        if widen:
+            src_kind = src_kind + "_of_subtype"
         if c == "operand_left":
             if t == "a":
                 c = "method_receiver"
@@ -121,7 +132,12 @@ def _case(draw):
                 defs = []
         if c == "method_receiver":
             t = "a"
-            s = null_source(draw, "a", src_kind)
+            widen_r = draw(st.integers(0, 2)) == 0
+            sk = src_kind.replace("_of_subtype", "")
+            if widen_r and sk == "none":
+                sk = "var"
+            s = null_source(draw, "b" if widen_r else "a", sk)
+            src_kind = sk + ("_of_subtype" if widen_r else "")
             defs, stmts = [], ["def res: Int := %s.ma(1)" % s]
         elif c not in ("operand_left", "operand_right"):
             defs, stmts = consumer(draw, c, t, s, False)
